@@ -62,6 +62,7 @@ type spemitIdpFlags struct {
 	Payload bool `json:"payload"`
 	RelayRT bool `json:"relayRT"`
 	DestOK  bool `json:"destOK"` // the IdP serving the URL the user agent is sent to accepts the message's Destination
+	AcsOK   bool `json:"acsOK"`  // the IdP finds the SP's assertion consumer service for the request (either result binding)
 }
 
 type spemitPred struct {
@@ -84,6 +85,9 @@ type spemitVec struct {
 		// the environment of the signing decision (round 5)
 		IdpWants string `json:"idpwants"` // WantAuthnRequestsSigned in the IdP's metadata: absent | true | false ("" = absent)
 		Chain    string `json:"chain"`    // sp.Intermediates: none | one | two ("" = none)
+		// who emits, and against what (round 6)
+		Offers    string `json:"offers"`    // bindings the IdP's metadata offers for single sign-on: both | redirect | post ("" = both)
+		MwBinding string `json:"mwbinding"` // samlsp.Middleware.Binding: default | redirect | post ("" = default)
 	} `json:"cfg"`
 	In struct {
 		Fam     string   `json:"fam"`
@@ -91,8 +95,10 @@ type spemitVec struct {
 		Binding string   `json:"binding"`
 		Relay   []string `json:"relay"`
 		NameID  []string `json:"nameid"`
-		Dest    string   `json:"dest"` // first | second | custom ("" = first)
-		Swap    bool     `json:"swap"` // sp.IDPMetadata replaced between creation and rendering
+		Dest    string   `json:"dest"`   // first | second | custom ("" = first)
+		Swap    bool     `json:"swap"`   // sp.IDPMetadata replaced between creation and rendering
+		Path    string   `json:"path"`   // direct | middleware ("" = direct): who emits the AuthnRequest
+		Result  string   `json:"result"` // post | artifact ("" = post): the binding the response is asked over
 	} `json:"in"`
 	Class    string `json:"class"`
 	Required struct {
@@ -101,6 +107,7 @@ type spemitVec struct {
 		NearMiss bool   `json:"nearmiss"`
 		OneStep  bool   `json:"onestep"`
 		Verifier string `json:"verifier"` // which published certificate the signature must verify under: leaf | none
+		Chosen   string `json:"chosen"`   // the binding the message is emitted with (the middleware's choice)
 	} `json:"required"`
 	// the certificates of the signing KeyDescriptor of sp.Metadata() as the model lists them: leaf, ca1, ca2
 	Published []string `json:"published"`
@@ -156,7 +163,35 @@ func (v *spemitVec) chain() string {
 	return v.Cfg.Chain
 }
 
-// envSuffix names the round-5 dimensions where they leave their default (earlier keys stay what they were).
+func (v *spemitVec) offers() string {
+	if v.Cfg.Offers == "" {
+		return "both"
+	}
+	return v.Cfg.Offers
+}
+
+func (v *spemitVec) mwBinding() string {
+	if v.Cfg.MwBinding == "" {
+		return "default"
+	}
+	return v.Cfg.MwBinding
+}
+
+func (v *spemitVec) path() string {
+	if v.In.Path == "" {
+		return "direct"
+	}
+	return v.In.Path
+}
+
+func (v *spemitVec) result() string {
+	if v.In.Result == "" {
+		return "post"
+	}
+	return v.In.Result
+}
+
+// envSuffix names the round-5 and round-6 dimensions where they leave their default (earlier keys stay what they were).
 func (v *spemitVec) envSuffix() string {
 	out := ""
 	if w := v.idpWants(); w != "absent" {
@@ -164,6 +199,15 @@ func (v *spemitVec) envSuffix() string {
 	}
 	if ch := v.chain(); ch != "none" {
 		out += ":chain=" + ch
+	}
+	if p := v.path(); p != "direct" {
+		out += ":path=" + p + ":mwbinding=" + v.mwBinding()
+	}
+	if o := v.offers(); o != "both" {
+		out += ":offers=" + o
+	}
+	if r := v.result(); r != "post" {
+		out += ":result=" + r
 	}
 	return out
 }
@@ -337,6 +381,10 @@ type spemitConc struct {
 	DestURL string `json:"dest_url,omitempty"`
 	// the URI a near-miss method string resembles
 	MethodBase string `json:"method_base,omitempty"`
+	// middleware path: the request tracker in use (stub: returns the case's relay state; default: the CookieRequestTracker
+	// of samlsp.New with a RelayStateFunc) and the entry point (HandleStartAuthFlow | RequireAccount)
+	Tracker string `json:"tracker,omitempty"`
+	Entry   string `json:"entry,omitempty"`
 }
 
 var spemitGivenIDs = []string{"id-9e61753d64e928af5a7a341a97f420c9", "_3c39bc0fe7b13769cab2f6f45eba801b1245264310738",
@@ -372,6 +420,21 @@ func spemitConcretise(v *spemitVec, rng *rand.Rand) *spemitConc {
 	if v.destClass() != "first" || v.In.Swap {
 		c.OneStep = false // the one-step functions pass the metadata's first location and render at once
 	}
+	if v.result() != "post" {
+		c.OneStep = false // the one-step functions ask for the response over HTTP-POST
+	}
+	if v.path() == "middleware" {
+		c.OneStep = false
+		c.Tracker, c.Entry = "stub", "HandleStartAuthFlow"
+		if rng.Intn(2) == 0 {
+			c.Entry = "RequireAccount"
+		}
+		// the default tracker signs its cookie with RS256 / ES256, which takes an RSA or a P-256 key; it invents a relay
+		// state of its own unless the RelayStateFunc returns one
+		if c.Relay != "" && (strings.HasPrefix(v.Cfg.Key, "rsa") || v.Cfg.Key == "ec256") && rng.Intn(2) == 0 {
+			c.Tracker = "default"
+		}
+	}
 	return c
 }
 
@@ -393,6 +456,23 @@ func spemitIdpMetadata(dest, query string) *saml.EntityDescriptor {
 		return spemitOtherQuery
 	}
 	return spemitIdpMetadataAt("first", q("first"), "second", q("second"))
+}
+
+// spemitApplyOffers removes the SingleSignOnService endpoints of the bindings the IdP does not offer (spec: cfg.offers).
+func spemitApplyOffers(md *saml.EntityDescriptor, offers string) {
+	if offers == "both" || offers == "" {
+		return
+	}
+	keep := spemitBindingURI(offers)
+	for i := range md.IDPSSODescriptors {
+		var eps []saml.Endpoint
+		for _, ep := range md.IDPSSODescriptors[i].SingleSignOnServices {
+			if ep.Binding == keep {
+				eps = append(eps, ep)
+			}
+		}
+		md.IDPSSODescriptors[i].SingleSignOnServices = eps
+	}
 }
 
 // spemitIdpMetadataReplaced is what the application installs later (spec: MdReplaced).
@@ -569,6 +649,7 @@ func spemitSP(v *spemitVec, c *spemitConc) *saml.ServiceProvider {
 	if v.Cfg.Rac {
 		s.RequestedAuthnContext = &saml.RequestedAuthnContext{Comparison: "exact", AuthnContextClassRef: spemitRacClass}
 	}
+	spemitApplyOffers(s.IDPMetadata, v.offers())
 	spemitApplyEnv(s, v)
 	return s
 }
@@ -593,6 +674,18 @@ type spemitEmission struct {
 	Panic    string
 	KnownID  string // message ID when the API exposes it (two-step)
 	Produced bool
+	// middleware path: the ServiceProvider of the middleware (whose metadata is the published one) and the binding the
+	// response was emitted with (302 + Location: redirect; 200 + form: post)
+	SP      *saml.ServiceProvider
+	Binding string
+	Status  int
+}
+
+func spemitResultURI(r string) string {
+	if r == "artifact" {
+		return saml.HTTPArtifactBinding
+	}
+	return saml.HTTPPostBinding
 }
 
 func spemitBindingURI(b string) string {
@@ -603,7 +696,11 @@ func spemitBindingURI(b string) string {
 }
 
 func spemitEmit(s *saml.ServiceProvider, v *spemitVec, c *spemitConc) *spemitEmission {
+	if v.path() == "middleware" {
+		return spemitEmitViaMiddleware(s, v, c)
+	}
 	e := &spemitEmission{}
+	result := spemitResultURI(v.result())
 	setURL := func(u *url.URL, err error) {
 		e.Err = err
 		if u != nil {
@@ -645,7 +742,7 @@ func spemitEmit(s *saml.ServiceProvider, v *spemitVec, c *spemitConc) *spemitEmi
 				}
 				return
 			}
-			req, err := s.MakeAuthenticationRequest(dest(s.GetSSOBindingLocation(b)), b, saml.HTTPPostBinding)
+			req, err := s.MakeAuthenticationRequest(dest(s.GetSSOBindingLocation(b)), b, result)
 			if err != nil || req == nil {
 				e.Err, e.Produced = err, req != nil
 				return
@@ -1088,7 +1185,7 @@ func spemitCheckMessage(root *etree.Element, v *spemitVec, c *spemitConc, knownI
 		acs, _ := spemitAttr(root, "AssertionConsumerServiceURL")
 		want("AssertionConsumerServiceURL", acs, spACS)
 		pb, _ := spemitAttr(root, "ProtocolBinding")
-		want("ProtocolBinding", pb, saml.HTTPPostBinding)
+		want("ProtocolBinding", pb, spemitResultURI(v.result()))
 		pol := spemitChild(root, nsProtocol, "NameIDPolicy")
 		if len(pol) != 1 {
 			bad = append(bad, fmt.Sprintf("NameIDPolicy: %d elements", len(pol)))
